@@ -138,6 +138,7 @@ const (
 	evItemCost  // A=keyhash B=cost as enqueued: logged right after evApplied (sequential driver)
 	evSweep     // the applier consumed a ticker tick, i.e. one expiry sweep ran (sequential driver)
 	evEst       // A=keyhash B=estimate C=1 for the incoming item's key: TinyLFU estimates just before an applier step (sequential driver)
+	evEnq       // A=keyhash B=val C=flag(0 new,1 delete,2 update,3 wait marker): a client call appended this item to the write buffer (sequential driver)
 	evMapYield  // A=-1: a map range statement starts (B keys); else A=key handed to the loop body (only with SeqSpec.LogEstimates)
 	evCost      // A=keyhash B=old cost (-1: newly accounted) C=new cost: accounting change made by an applier step (sequential driver)
 	evPre       // A=key B=flags(1 resident, 2 pending as a new item) C=room; logged by the sequential driver before an op
@@ -147,7 +148,7 @@ var evNames = map[uint8]string{evSetCall: "Set?", evSetRet: "Set=", evGetCall: "
 	evWaitCall: "Wait?", evWaitRet: "Wait=", evClearCall: "Clear?", evClearRet: "Clear=", evCloseCall: "Close?", evCloseRet: "Close=",
 	evOnExit: "OnExit", evOnEvict: "OnEvict", evOnReject: "OnReject", evIterCall: "Iter?", evIterVisit: "IterVisit", evIterRet: "Iter=",
 	evGetTTLCall: "GetTTL?", evGetTTLRet: "GetTTL=", evAdvance: "advance", evTick: "tick", evRemaining: "Remaining=", evMaxCost: "MaxCost=",
-	evUpdMax: "UpdateMaxCost", evMetrics: "metrics", evMark: "mark", evShouldUpd: "ShouldUpdate", evCostFn: "CostFn", evPre: "pre", evApplied: "applied", evSweep: "sweep", evItemCost: "itemcost", evCost: "cost", evEst: "estimate", evMapYield: "mapyield"}
+	evUpdMax: "UpdateMaxCost", evMetrics: "metrics", evMark: "mark", evShouldUpd: "ShouldUpdate", evCostFn: "CostFn", evPre: "pre", evApplied: "applied", evSweep: "sweep", evItemCost: "itemcost", evCost: "cost", evEst: "estimate", evMapYield: "mapyield", evEnq: "enqueued"}
 
 func fmtEvents(evs []vsched.Event) []string {
 	out := make([]string, 0, len(evs))
